@@ -70,7 +70,14 @@ def hostile_bv(rng, n):
         B = rng.choice([["bvv", amt, w], ["bvv", amt, w], ["int", rng.choice([amt, -1, 1 << 64, (1 << 64) - 1, 1 << 62])]])
         o = rng.choice(["shl", "lshr", "ashr", "rol", "ror", "shl", "mul", "udiv", "urem", "sdiv", "srem", "sub", "add"])
         k = rng.random()
-        if k < 0.5:
+        if k < 0.12:
+            # two shifts of one operand combined and masked (rotate idioms, mask-of-shift rewrites) with hostile amounts
+            amt2 = rng.choice([w - 1, w, 1, (1 << 62) - 1, 1 << 62, (1 << 63) - 1, (1 << 64) - 1, m, m - amt & m, (w - amt) & m]) & m
+            inner = [rng.choice(["or", "or", "xor", "add", "and"]), [rng.choice(["shl", "shl", "lshr"]), A, B], [rng.choice(["lshr", "lshr", "shl", "ashr"]), A, ["bvv", amt2, w]]]
+            mask = ["bvv", rng.choice([m, 1, 0xFF & m, m >> 1, (1 << (w // 2)) - 1 if w > 1 else 1, rng.getrandbits(w)]), w]
+            hi = rng.randrange(0, w)
+            yield rng.choice([inner, ["and", inner, mask], ["and", mask, inner], ["extract", hi, rng.randrange(0, hi + 1), inner], [rng.choice(G.CMP_ALL), ["and", inner, mask], ["bvv", val, w]]])
+        elif k < 0.5:
             yield [o, A, B]
         elif k < 0.65:
             yield [o, [rng.choice(["shl", "lshr", "ashr", "rol"]), A, B], ["bvv", amt, w]]
